@@ -90,3 +90,25 @@ Proof.
   intros H. unfold lsub_implied. destruct (existsb (Ascii.eqb pct) pattern) eqn:Hp; [|reflexivity].
   apply existsb_pct in Hp. contradiction.
 Qed.
+
+(** the names LSUB answers as subscribed are exactly the subscribed names that
+    match reference+pattern (INBOX case-insensitively) *)
+Theorem lsub_plain_exact subs reference pattern n :
+  (forall m, In m subs -> to_upper m = INBOX -> m = INBOX) ->
+  (In n (snd (lsub_names subs reference pattern)) <->
+   In n subs /\ MatchesI (build_canonical_pattern reference pattern) n).
+Proof.
+  intros Huniq. unfold lsub_names. cbn [snd].
+  pose proof (filter_mailboxes_exact subs reference pattern n Huniq) as Hf. cbv zeta in Hf.
+  destruct (existsb (fun m => str_eqb (to_upper m) INBOX) subs) eqn:Hex.
+  - apply existsb_exists in Hex as (m & Hm & E). apply str_eqb_eq in E.
+    pose proof (Huniq m Hm E) as ->. rewrite Hf. split.
+    + intros [[H| ->] HM]; auto.
+    + intros [H HM]; auto.
+  - assert (Hno : ~ In INBOX subs).
+    { intros Hin. assert (existsb (fun m => str_eqb (to_upper m) INBOX) subs = true) as K; [|congruence].
+      apply existsb_exists. exists INBOX. split; [exact Hin|]. rewrite to_upper_INBOX. apply str_eqb_refl. }
+    rewrite filter_In, Hf, negb_true_iff. split.
+    + intros [[[H| ->] HM] Hne]; [auto|]. rewrite str_eqb_refl in Hne. discriminate.
+    + intros [H HM]. split; [auto|]. destruct (str_eqb_spec n INBOX) as [->|_]; [contradiction|reflexivity].
+Qed.
